@@ -197,6 +197,15 @@ fn check_partition_inner(input: &[u8], one: &OneShot, chunks: &[&[u8]], str_ok: 
             esc(&one.bytes)
         ));
     }
+    let a = stripped_bytes_extend_chunked(chunks)?;
+    if a != one.bytes {
+        return Err(format!(
+            "strip_bytes + StrippedBytes::extend over chunks [{}] gave {} but one-shot gives {}",
+            show(),
+            esc(&a),
+            esc(&one.bytes)
+        ));
+    }
     let a = strip_stream_write_all_chunked(chunks)?;
     if a != one.bytes {
         return Err(format!(
